@@ -81,6 +81,7 @@ type PointRec struct {
 	RunningEn  bool   // the thread that was running is Enabled[0] and could have continued
 	Thread     int8   // thread that was running when the point was hit (-1 = driver/start)
 	Kind       uint8  // pending op kind of the thread that was running
+	SelfIdx    int8   // at a yield: index in Enabled of the yielding thread itself (-1 otherwise)
 	Key        uint64 // state key at this point (keyed mode) else 0
 	PrunedHere bool
 }
@@ -284,6 +285,10 @@ func schedule(me int, isChoice bool) {
 			rec.Kind = threads[me].kind
 		}
 		rec.RunningEn = meOK && !yielding && en[0] == int8(me)
+		rec.SelfIdx = -1
+		if meOK && yielding {
+			rec.SelfIdx = int8(n - 1)
+		}
 		if pos < len(cfg.Prefix) {
 			choice = cfg.Prefix[pos]
 			if choice >= n {
